@@ -14,9 +14,8 @@ theorem isInfix_singleton (c : Char) (s : Str) : isInfix [c] s = s.contains c :=
   induction s with
   | nil => rfl
   | cons a as ih =>
-    simp only [isInfix, List.isPrefixOf, ih, List.contains_cons]
-    cases h : c == a <;> simp [h, List.isPrefixOf, eq_comm, BEq.comm]
-    all_goals (cases h2 : a == c <;> simp_all [BEq.comm])
+    have h1 : [c].isPrefixOf (a :: as) = (c == a) := by simp [List.isPrefixOf]
+    rw [isInfix, h1, ih, List.contains_cons]
 
 theorem contains_false_iff (s : Str) (c : Char) : s.contains c = false ↔ c ∉ s := by
   rw [← Bool.not_eq_true, List.contains_iff_mem]
@@ -32,7 +31,7 @@ theorem replaceGo_single (a : Char) (rep s : Str) :
     simp only [replaceGo, List.isPrefixOf, List.length_singleton, Nat.sub_self, List.flatMap_cons, ih]
     by_cases h : c = a
     · subst h; simp
-    · have : (a == c) = false := by simpa [eq_comm] using h
+    · have : (a == c) = false := beq_eq_false_iff_ne.mpr (fun e => h e.symm)
       simp [this, h]
 
 theorem replaceAll_single (a : Char) (rep s : Str) :
@@ -70,6 +69,8 @@ structure TablesOk (T : Tables) : Prop where
   ctrlVals : T.ctrl.all (fun kv => match kv.2 with
     | [b, e] => b == bs && simpleEscape e == some kv.1 && !isLineBreak e && e != sq && e != dq && e != bs
     | _ => false) = true
+  /-- the separator appended to a directory is an ordinary character of a bare word -/
+  slashPlain : (oddChar T '/' || T.special '/') = false
   quoteToUse : ∀ x, T.quoteToUse x = quoteToUseRef x
   rawQuote : ∀ x, T.rawQuote x = rawQuoteRef x
 
@@ -106,7 +107,7 @@ theorem TablesOk.isKey {T : Tables} (ok : TablesOk T) (c : Char) :
   cases h : T.ctrl.lookup c with
   | some v =>
     obtain ⟨_, _, _, _, _, _, _, hk⟩ := ok.val h
-    simp [hk]
+    rw [hk]; rfl
   | none =>
     cases hc : escapedCtrl.contains c with
     | false => rfl
